@@ -186,15 +186,16 @@ impl Node {
         r
     }
 
+    /// (`Receiver::is_empty` of this tokio version can report false on a drained channel; `len` is exact)
     pub fn pending(&mut self) -> Vec<Queue> {
         let mut v = vec![];
-        if !self.rx_verify.is_empty() {
+        if self.rx_verify.len() > 0 {
             v.push(Queue::Verify);
         }
-        if !self.rx_consensus.is_empty() {
+        if self.rx_consensus.len() > 0 {
             v.push(Queue::Consensus);
         }
-        if !self.rx_router.is_empty() {
+        if self.rx_router.len() > 0 {
             v.push(Queue::Router);
         }
         v
